@@ -507,9 +507,9 @@ def coq_cout(fn):
     return None
   except Exception as e:    # pylint: disable=broad-except
     n = type(e).__name__
-    return ('(Raise %s)' % n) if n in COQ_EXC else None
+    return ('(Raise %s : cout)' % n) if n in COQ_EXC else None
   try:
-    return '(Val %s)' % coq_cval(v)
+    return '(Val %s : cout)' % coq_cval(v)
   except Unmappable:
     return None
 
@@ -607,11 +607,13 @@ class Gen(object):
 
   def call(self, depth):
     r = self.rng
-    f = r.choice([self.name(), self.attr_chain(), self.attr_chain() + '.' + r.choice(['lower', 'upper']),
-                  self.string() + '.lower'])
+    f = r.choice([r.choice(FUNCS), r.choice(FUNCS), self.name(), self.attr_chain(),
+                  self.attr_chain() + '.' + r.choice(['lower', 'upper']), self.string() + '.lower'])
     args = [self.expr(depth - 1) for _ in range(r.randint(0, 2))]
-    kws = ['%s%s=%s%s' % (r.choice(['k', 'c', 'd', 'key']), self.ws(), self.ws(), self.expr(depth - 1))
-           for _ in range(r.choice([0, 0, 0, 1, 2]))]
+    names = r.sample(['k', 'c', 'd', 'key', 'b2'], r.choice([0, 0, 0, 1, 2, 2, 3]))
+    if names and r.random() < 0.08:
+      names.append(names[0])        # a repeated keyword: accepted by ast.parse, rejected by the compiler
+    kws = ['%s%s=%s%s' % (n, self.ws(), self.ws(), self.expr(depth - 1)) for n in names]
     return f + self.ws() + '(' + (',' + self.ws()).join(args + kws) + ')'
 
   def expr(self, depth):
@@ -741,5 +743,7 @@ FIXED_FORMULAS = [
   "1e-400", "0.1+0.2", "a.b.c()", "rec.$x", "(1,2) == [1,2]", "x in ()", "not not a", "a and b and c or d",
   "rec.A ==", "+ 'New' in choice.city and $name == rec.name", "'\\ud800'", "1" * 5000, "((((((a))))))",
   "a if", "a \\\n and b", "a and\nb", "\ta", "a\x0c", "a # c\x0c ", "\x0ca", "a #\r\n", "# only\n# comments", "a\r\n#c",
+  "f(d=1, c=2)", "func(1, key=2, c=[3])", "g(k=f(d=1, b2=2, c=3), b2=f())", "f(k=1, k=2)", "f(c=1)(d=2, c=3)",
+  "not not a", "not (not (not 0))", "a and b and c and d and e", "0 or '' or [] or None or 0.0 or 5", "True # c\t", "a #\x0c x \x0c",
   "__debug__", "None is None", "not True", "[] == []", "[[1, [2]], []]", "f()", "f(k=1)", "$A.lower()", "user . Name",
 ]
